@@ -184,6 +184,60 @@ def run(ck):
                       f"the transferred item `{var}` is run or reported before it is replaced"
                       if wit is None else f"after `{norm1(n.ast)}` the item can be dropped", fi, n.ast,
                       witness=path_witness(g, wit))
+    # ---- at most one outcome per accepted item: an item that was reported through on_cancel is
+    # never run afterwards, and none is run twice (a consumer is followed by a re-definition of
+    # the variable before the next consumer of the same variable)
+    n_pairs = 0
+    for cname_ in ('_ctrl_cancel', '_ctrl_wait', '_ctrl_start'):
+        fi = m.get(cname_)
+        g = ck.cfg(fi.fid, 'M0')
+        vars_ = sorted({norm(a) for n in g.nodes for c in node_calls(n)
+                        if call_name(c) == '_output_coro_wrapper' for a in c.args})
+        for var in vars_:
+            def run_of(n, var=var):
+                return any(call_name(c) == '_output_coro_wrapper' and [norm(a) for a in c.args] == [var]
+                           for c in node_calls(n))
+
+            def report_of(n, var=var):
+                if n.kind == 'for' and norm(n.ast.iter) == 'self._on_cancel':
+                    return any(isinstance(x, ast.Call) and call_name(x) == 'send' and
+                               any(k.arg == 'put' and norm(k.value) == var for k in x.keywords)
+                               for s_ in n.ast.body for x in walk_shallow(s_))
+                return False
+            runs = nodes_where(g, run_of, kinds=('stmt', 'test'))
+            reports = nodes_where(g, report_of, kinds=('for',))
+            redefs = [n for n in g.nodes if var in node_defs(n)]
+            for c1 in runs + reports:
+                for c2 in runs + reports:
+                    if c1 in reports and c2 in reports:
+                        continue        # the header of the reporting loop is re-entered per event
+                    n_pairs += 1
+                    if c1 in reports:
+                        # leave the reporting loop first (its own iterations are one report)
+                        starts = [g.nodes[v] for v, lab in g.succ[c1.id] if lab != 'iter']
+                    else:
+                        starts = [g.nodes[v] for v, lab in g.succ[c1.id] if lab != 'exc']
+                    wit = None
+                    for st_ in starts:
+                        if st_ in redefs:
+                            continue
+                        if st_ is c2:
+                            wit = [c1, c2]
+                            break
+                        w = path_pruned(g, st_, [c2], avoid=redefs, start_successors_only=False,
+                                        init_facts=stable_guard_facts(g, c1))
+                        if w is not None:
+                            wit = [c1] + list(w)
+                            break
+                    k1 = 'run' if c1 in runs else 'cancel report'
+                    k2 = 'run' if c2 in runs else 'cancel report'
+                    ck.ob(R2, f"{fi.fid} :: `{var}`: {k1} then {k2}", wit is None,
+                          f"after the {k1} of `{var}` the variable is re-bound before the next {k2}: "
+                          f"one outcome per accepted event" if wit is None else
+                          f"the same item `{var}` can get a {k1} and then a {k2}: two outcomes for "
+                          f"one accepted event", fi, c2.ast, witness=path_witness(g, wit))
+    ck.need(R2, n_pairs >= 4, f"only {n_pairs} consumer pairs analysed (expected >= 4)")
+
     ep = m.get('_event_put')
     ok = ep is not None and ep.node.args.kwarg is not None and any(
         isinstance(x, ast.Call) and call_name(x) == 'put_nowait' and recv(x) == 'self._queue' and
@@ -371,6 +425,39 @@ def run(ck):
     gth = [a for a in own_nodes(cs.node) if isinstance(a, ast.Await) and call_name(a.value) == 'gather']
     ck.ob(R5, f"{cs.fid} :: gathered", len(gth) == 1, "all started tasks are gathered after the "
           "sentinel" if len(gth) == 1 else "start mode does not wait for its tasks", cs, cs.node)
+    # every path from a task creation to the exit passes the gather; the only accepted way round
+    # it is the false outcome of a truth test of the very container the tasks were added to
+    mks = nodes_where(gst, lambda n: any(call_name(c) in ('create_task', 'ensure_future') for c in node_calls(n)))
+    gnodes = nodes_where(gst, lambda n: any(isinstance(a, ast.Await) and call_name(a.value) == 'gather'
+                                            for a in walk_shallow(n.ast)))
+    conts = set()
+    for n in mks:
+        for c in node_calls(n, 'add'):
+            if recv(c):
+                conts.add(recv(c))
+        if isinstance(n.ast, ast.Assign):
+            conts.add(norm(n.ast.targets[0]))
+    gargs = {norm(a.value) if isinstance(a, ast.Starred) else norm(a)
+             for n in gnodes for a_ in walk_shallow(n.ast) if isinstance(a_, ast.Await)
+             for a in a_.value.args}
+    from sa.cfg import decompose, canon_fact
+    empties = set()
+    for c_ in conts:
+        for t_ in (c_, f'len({c_}) > 0', f'len({c_})', f'len({c_}) != 0', f'len({c_}) >= 1'):
+            empties.add(canon_fact(ast.parse(t_, mode='eval').body, False))
+        empties.add(canon_fact(ast.parse(f'len({c_}) == 0', mode='eval').body, True))
+    empty_br = [n for n in gst.nodes if n.kind == 'branch' and
+                any(canon_fact(e, p_) in empties for e, p_ in decompose(n.test.ast, n.polarity))]
+    wit = None
+    for n in mks:
+        wit = wit or gst.path_avoiding(n, [gst.exit], avoid=gnodes + empty_br, start_successors_only=True)
+    okg = bool(mks) and bool(gnodes) and wit is None and bool(conts & gargs)
+    ck.ob(R5, f"{cs.fid} :: every started run is awaited before the control task ends", okg,
+          f"every path from create_task to the exit awaits gather(*{sorted(conts & gargs)}) (skipped "
+          f"only when that container is empty)" if okg else
+          "the control task of start mode can end while a run it has just created is still "
+          "pending (it is not awaited: stop_data would not be processed last / the run is "
+          "abandoned)", cs, mks[0].ast if mks else cs.node, witness=path_witness(gst, wit))
 
     # ------------------------------------------------------------------ R12.6
     gi = ck.cfg(ini.fid, 'M0')
